@@ -150,7 +150,7 @@ structure Cls where
   ctraits : Map Trait
   prefixes : List (Name × Trait)
   decl : Map Trait
-  deriving Repr, Inhabited
+  deriving DecidableEq, Repr, Inhabited
 
 /-- `Python().as_ctrait()` (has_traits.py:598), `any_trait` (117),
 `generic_trait` (traits.py:636). -/
@@ -201,12 +201,12 @@ structure Obj where
   cls : Nat
   itraits : Map Trait := []
   dict : Map Val := []
-  deriving Repr, Inhabited
+  deriving DecidableEq, Repr, Inhabited
 
 structure World where
   classes : List Cls
   objs : List Obj
-  deriving Repr, Inhabited
+  deriving DecidableEq, Repr, Inhabited
 
 /-- Parameters: validators (C01/C03 own their semantics), the attributes
 `PyObject_GenericGetAttr` finds on the *type* (methods …), delegate access. -/
